@@ -44,6 +44,9 @@ CHECKS = {
  "C20": dict(technique="differential property testing (proptest) of the real CLI binary against library reference sets on the same materialised tree; metamorphic rerun / text-vs-JSON / filter-partition relations",
              text="Generated-input search over workspaces; oracle: unused list == {project, non-autouse, empty reference set}, exit status, text == JSON, list counts == reference set sizes, filters partition, reruns byte-identical across worker counts. Exploration only.",
              note="trusted: find_references_for_definition as the server-side reference (validated against goto by C04 and against the model by C01/C02)", ref="DESIGN.md 4 C20", engine="vengine"),
+ "C19": dict(technique="differential stateful property testing (proptest sessions) of the real server's publishDiagnostics against the library on a fresh index, under generated pyproject.toml configurations",
+             text="Generated-input search over edit/close histories and configuration files; oracle: what the client last received for the changed document == undeclared + cycle + scope findings of a fresh index of the latest contents minus the codes the generated configuration disables; malformed / partially invalid configuration must leave the rest effective. Exploration only.",
+             note="trusted: the three library collectors as reference for the findings themselves (they are judged by C16/C17); the configuration meaning is ground truth from the generator", ref="DESIGN.md 4 C19", engine="vengine"),
 }
 PENDING = {
 }
